@@ -29,6 +29,39 @@ def ext2(a: int, b: int) -> int: ...
 @guppy.declare
 def ext3(a: int, b: int, c: int) -> int: ...
 
+@guppy.declare
+def mk0(a: int) -> int: ...
+
+@guppy.declare
+def mk1(a: int) -> int: ...
+
+@guppy.declare
+def mk2(a: int) -> int: ...
+
+@guppy.declare
+def mk3(a: int) -> int: ...
+
+@guppy.declare
+def mkb0(a: int) -> bool: ...
+
+@guppy.declare
+def mkb1(a: int) -> bool: ...
+
+@guppy.declare
+def mkb2(a: int) -> bool: ...
+
+@guppy.declare
+def mkn(a: int) -> None: ...
+
+@guppy.declare
+def mkt(a: int) -> tuple[int, int]: ...
+
+@guppy.declare
+def mkarr(a: int) -> array[int, 3]: ...
+
+@guppy.declare
+def mks(a: int) -> "S": ...
+
 @guppy
 def sub(a: int, b: int) -> int:
     return a - b
@@ -532,6 +565,105 @@ def jump_cases():
 jump_cases()
 
 
+def effect_cases():
+    """Expression positions: for every expression form with sub-expressions, an effectful
+    sub-expression (a call to a distinct declared marker function, `result`, a gate) against an
+    effect-free one of the same type at each position, all OTHER positions staying effectful.
+    Python evaluates every operand of these forms, so the compiled programs must differ (or the
+    form must be rejected) -- also where the value of the position is discarded, e.g. the
+    non-selected elements of `(a, b, c)[1]`."""
+    F, E = (False,), (True,)
+    I = [("mk0(x)", "x"), ("mk1(y)", "y"), ("mk2(1)", "1"), ("mk3(x)", "x")]
+    Bo = [("mkb0(x)", "b"), ("mkb1(y)", "b"), ("mkb2(1)", "b")]
+    N = ("mkn(x)", "None")
+    T = []   # (name, body template, slots, exp, frame)
+
+    def t(name, body, slots, exp=F, frame=MAIN):
+        T.append((name, body, slots, exp, frame))
+
+    for k in range(3):
+        t(f"tuple-literal[{k}]", "return ({0}, {1}, {2})[%d]" % k, I[:3])
+        t(f"tuple-literal[{k}]-assigned", "z = ({0}, {1}, {2})[%d]\nreturn z + 1" % k, I[:3])
+        t(f"tuple-var[{k}]", "t = ({0}, {1}, {2})\nreturn t[%d]" % k, I[:3])
+        t(f"array-literal[{k}]", "return array({0}, {1}, {2})[%d]" % k, I[:3])
+        t(f"list-literal[{k}]", "return [{0}, {1}, {2}][%d]" % k, I[:3], E)
+        t(f"tuple-literal[{k}]-stmt", "({0}, {1}, {2})[%d]\nreturn x" % k, I[:3])
+        t(f"tuple-literal[{k}]-in-if", "z = 0\nif ({0}, {1}, {2})[%d] > 0:\n    z = 1\nreturn z" % k, I[:3])
+        t(f"tuple-literal[{k}]-as-arg", "return ext(({0}, {1}, {2})[%d])" % k, I[:3])
+    for i in range(2):
+        for j in range(2):
+            t(f"nested-tuple[{i}][{j}]", "return (({0}, {1}), ({2}, {3}))[%d][%d]" % (i, j), I)
+            t(f"nested-tuple-mixed[{i}][{j}]", "t = ({0}, {1})\nreturn (t, ({2}, {3}))[%d][%d]" % (i, j), I)
+    t("tuple-with-none[1]", "return ({0}, {1})[1]", [N, I[0]])
+    t("tuple-with-none[0]", "({0}, {1})[0]\nreturn x", [N, I[0]])
+    t("tuple-with-result[1]", "return ({0}, {1})[1]", [("result('seen', x)", "None"), I[0]])
+    t("tuple-of-gates[1]", "z = ({0}, 7, {1})[1]", [("h(q)", "None"), ("qx(d)", "None")], F,
+      "\n@guppy\ndef main(q: qubit, c: qubit, d: qubit, e: qubit, n: nat) -> None:\n{body}\n")
+    t("tuple-of-gates[0]", "({0}, {1}, 7)[0]", [("h(q)", "None"), ("qx(d)", "None")], F,
+      "\n@guppy\ndef main(q: qubit, c: qubit, d: qubit, e: qubit, n: nat) -> None:\n{body}\n")
+    t("call-result[i]", "return mkt({0})[0] + mkarr({1})[{2}]", I[:3])
+    t("subscript", "a = array(1, 2, 3)\nreturn {0}[{1}]", [("mkarr(x)", "a"), ("mk1(y)", "y")])
+    t("attribute-of-call", "s = S(x, y)\nreturn {0}.a", [("mks(x)", "s")])
+    t("struct-ctor", "return S({0}, {1}).c", I[:2])
+    t("struct-ctor-var", "s = S({0}, {1})\nreturn s.a", I[:2])
+    t("binop", "return {0} + {1} * {2}", I[:3])
+    t("binop-discarded", "{0} + {1} * {2}\nreturn x", I[:3])
+    t("unaryop", "return -{0}", I[:1])
+    t("boolop-and", "z = {0} and {1} and {2}\nreturn int(z)", Bo)
+    t("boolop-or", "z = {0} or {1} or {2}\nreturn int(z)", Bo)
+    t("boolop-in-if", "z = 0\nif {0} and {1} or {2}:\n    z = 1\nreturn z", Bo)
+    t("boolop-stmt", "{0} and {1}\nreturn x", Bo[:2])
+    t("not", "z = not {0}\nreturn int(z)", Bo[:1])
+    t("compare", "z = {0} < {1}\nreturn int(z)", I[:2])
+    t("compare-chain", "z = {0} < {1} <= {2}\nreturn int(z)", I[:3])
+    t("compare-chain-in-while", "z = 0\nwhile {0} < {1} < {2}:\n    z += 1\nreturn z", I[:3])
+    t("ifexp", "return {1} if {0} else {2}", [Bo[0], I[1], I[2]])
+    t("ifexp-stmt", "{1} if {0} else {2}\nreturn x", [Bo[0], I[1], I[2]])
+    t("ifexp-in-test", "z = 0\nif ({1} if {0} else {2}):\n    z = 1\nreturn z", Bo)
+    t("call-args", "return ext3({0}, {1}, {2})", I[:3])
+    t("call-args-stmt", "ext3({0}, {1}, {2})\nreturn x", I[:3])
+    t("call-args-nested-fn", "def g(a: int, c: int, d: int) -> int:\n    return a\nreturn g({0}, {1}, {2})", I[:3])
+    t("call-args-nested-call", "return ext2(ext({0}), ext2({1}, {2}))", I[:3])
+    t("method-call", "return {0}.__add__({1})", I[:2])
+    t("array-ctor", "a = array({0}, {1}, {2})\nreturn a[0]", I[:3])
+    t("array-ctor-discarded", "array({0}, {1}, {2})\nreturn x", I[:3])
+    t("tuple-display-discarded", "({0}, {1}, {2})\nreturn x", I[:3])
+    t("tuple-display-unused-var", "t = ({0}, {1}, {2})\nreturn x", I[:3])
+    t("tuple-unpack", "p, q, r = {0}, {1}, {2}\nreturn q", I[:3])
+    t("tuple-unpack-nested", "p, (q, r) = {0}, ({1}, {2})\nreturn p", I[:3])
+    t("tuple-return", "def g() -> tuple[int, int, int]:\n    return {0}, {1}, {2}\nreturn g()[1]", I[:3], E)
+    t("list-display", "l = [{0}, {1}, {2}]\nreturn x", I[:3], E)
+    t("listcomp", "l = [{0} for i in range({1}) if {2}]\nreturn x", [("mk0(i)", "i"), ("mk1(y)", "y"), ("mkb0(i)", "i > 0")], E)
+    t("listcomp-two-gens", "l = [{0} for i in range({1}) if {2} for j in range({3})]\nreturn x",
+      [("mk0(i + j)", "i + j"), ("mk1(y)", "y"), ("mkb0(i)", "i > 0"), ("mk3(i)", "i")], E)
+    t("array-comp", "a = array({0} for i in range(3))\nreturn a[0]", [("mk0(i)", "i")])
+    t("walrus", "z = (w := {0}) + {1}\nreturn z + w", I[:2])
+    t("walrus-in-if", "z = 0\nif (w := {0}) > {1}:\n    z = w\nreturn z", I[:2])
+    t("augassign", "z = x\nz += {0}\nreturn z", I[:1])
+    t("augassign-subscript", "a = array(1, 2, 3)\na[{0}] += {1}\nreturn a[0]", I[:2])
+    t("assign-subscript", "a = array(1, 2, 3)\na[{0}] = {1}\nreturn a[0]", I[:2])
+    t("annassign", "z: int = {0}\nreturn x", I[:1])
+    t("expr-stmt", "{0}\nreturn x", I[:1])
+    t("expr-stmt-none", "{0}\nreturn x", [N])
+    t("return-value", "return {0}", I[:1])
+    t("for-iter", "z = 0\nfor i in range({0}):\n    z += {1}\nreturn z", I[:2])
+    t("while-test", "z = 0\nwhile z < {0}:\n    z += {1}\nreturn z", I[:2])
+    t("comptime-mixed", "return ({0}, comptime(N1))[1] + {1}", I[:2])
+    for name, body, slots, exp, frame in T:
+        eff = [e for e, _ in slots]
+        for i, (e_, pure) in enumerate(slots):
+            vals = list(eff)
+            vals[i] = pure
+            a_, b_ = body.format(*eff), body.format(*vals)
+            if frame is MAIN:
+                C(f"effect:{name}/slot{i}", a_, b_, exp=exp)
+            else:
+                C(f"effect:{name}/slot{i}", textwrap.indent(a_, "    "), textwrap.indent(b_, "    "), frame=frame, exp=exp)
+
+
+effect_cases()
+
+
 def build(case):
     """-> (src_a, src_b)"""
     fr = case["frame"]
@@ -620,12 +752,18 @@ def summary(src):
     return sorted(kinds), sorted(present)
 
 
-def emit(contexts):
+def emit(contexts, sample=None):
+    """`sample` = (n, seed): only n seeded (case, context) combinations are built."""
     out = []
-    for c in CASES:
-        for cx in contexts:
-            if cx != "plain" and (c["frame"] is not MAIN or c["id"].startswith("jump:")):
-                continue  # jump cases bring their own enclosing loops
+    combos = [(c, cx) for c in CASES for cx in contexts
+              # jump cases bring their own enclosing loops
+              if not (cx != "plain" and (c["frame"] is not MAIN or c["id"].startswith("jump:")))]
+    if sample is not None:
+        import random
+        r = random.Random(f"{sample[1]}/C32-contexts")
+        combos = [combos[j] for j in sorted(r.sample(range(len(combos)), min(sample[0], len(combos))))]
+    for c, cx in combos:
+        if True:
             cc = dict(c)
             cc["a"], cc["b"] = wrap(c["a"], cx), wrap(c["b"], cx)
             sa, sb = build(cc)
@@ -644,4 +782,9 @@ def emit(contexts):
 if __name__ == "__main__":
     import json
     import sys
-    json.dump(emit(sys.argv[1:] or ["plain"]), sys.stdout)
+    args = sys.argv[1:]
+    smp = None
+    if args and args[0] == "--sample":
+        smp = (int(args[1]), args[2])
+        args = args[3:]
+    json.dump(emit(args or ["plain"], smp), sys.stdout)
